@@ -41,6 +41,7 @@ RULES = {
     'R10': '`impl Iterator` return typed as Vec',
     'R11': 'macro_rules instantiation by textual substitution of $type',
     'R12': 'call-shape specialisation of an unsupported std/dependency idiom to an equivalent supported one (each instance listed)',
+    'R13': 'closure body lifted: the `{ .. }` block of a closure inside the function is emitted, byte-identical, as the body of a named function whose signature (closure parameters + captured variables as parameters) comes from the template; dropped: the call that receives the closure and the rest of the enclosing function',
 }
 
 
@@ -123,6 +124,27 @@ def _find_nth(hay, needle, nth, what):
     return hits[nth]
 
 
+def _word_hits(text, needle):
+    """start offsets of `needle` in `text`; where the needle begins / ends with an identifier character the
+    match must not continue an identifier (`t.as_ref()` does not match inside `digest.as_ref()`)"""
+    def idc(ch):
+        return ch.isalnum() or ch == '_'
+    out, i = [], text.find(needle)
+    while i >= 0:
+        j = i + len(needle)
+        ok = True
+        if needle and idc(needle[0]) and i > 0 and idc(text[i - 1]):
+            ok = False
+        if needle and idc(needle[-1]) and j < len(text) and idc(text[j]):
+            ok = False
+        if ok:
+            out.append(i)
+            i = text.find(needle, j)
+        else:
+            i = text.find(needle, i + 1)
+    return out
+
+
 def _loop_headers(body):
     """(kw_idx, open_brace_idx) for each loop in body (masked scan)."""
     m = mask(body)
@@ -177,6 +199,7 @@ def process_fn(asm, header_line, block, tmpl_line):
 
     # ---- parse block
     spec_lines, loops, ghosts, subs, sigsubs = [], [], [], [], []
+    lift, lift_sig = None, []
     i = 0
     while i < len(block):
         ln, lno = block[i]
@@ -230,6 +253,16 @@ def process_fn(asm, header_line, block, tmpl_line):
             strs, skv, _ = _parse_strs(rest)
             subs.append((r, strs[0], strs[1], int(skv.get('n', 1))))
             i += 1
+        elif s.startswith('//@lift'):
+            strs, lkv, _ = _parse_strs(s[len('//@lift'):])
+            lift = (strs[0], lkv)
+            i += 1
+        elif s == '//@sig':
+            j = i + 1
+            while not block[j][0].strip().startswith('//@/sig'):
+                lift_sig.append(block[j][0].strip())
+                j += 1
+            i = j + 1
         elif s.startswith('//@sigsub'):
             rest = s[len('//@sigsub'):].strip()
             r, rest = rest.split(None, 1)
@@ -240,6 +273,28 @@ def process_fn(asm, header_line, block, tmpl_line):
             i += 1
         else:
             raise ScanError('template error line %d: unexpected %r inside //@fn' % (lno, s))
+
+    # ---- R13: a closure body lifted to a named function
+    if lift is not None:
+        snip, lkv = lift
+        if not lift_sig:
+            raise ScanError('template error: //@lift needs a //@sig .. //@/sig block')
+        k = _find_nth(body, snip, int(lkv['nth']) if 'nth' in lkv else None, '%s::%s lift' % (container, name))
+        mb = mask(body)
+        p0 = k + len(snip)
+        while p0 < len(body) and body[p0] in ' \t\r\n':
+            p0 += 1
+        if p0 >= len(body) or mb[p0] != '{':
+            raise ScanError('lost anchor: %s::%s lift: closure after %r has no block body' % (container, name, snip))
+        e0 = match_brace(mb, p0)
+        new_line = f['line'] + f['sig'].count('\n') + body[:p0].count('\n')
+        rule('R13', 'closure body after %r lifted to fn %s' % (snip, kv.get('as', name)), new_line)
+        body = body[p0:e0 + 1]
+        f = dict(f, line=new_line, sig=' '.join(lift_sig), prefix='', body=body)
+        sig = f['sig']
+        name = re.match(r'fn\s+([A-Za-z0-9_]+)', sig).group(1)
+        rec['emitted_as'] = name
+        rec['lifted_closure'] = snip
 
     # ---- signature
     for (r, old, new) in sigsubs:
@@ -300,7 +355,8 @@ def process_fn(asm, header_line, block, tmpl_line):
     # ---- body
     # work on a list of (char) with insertion points -> simpler: compute insertions as (index, text, origin)
     for (r, old, new, n) in subs:
-        c = body.count(old)
+        hits = _word_hits(body, old)
+        c = len(hits)
         if c != n:
             if asm.degrade and c == 0:
                 asm.degraded.append('%s::%s: substitution %s %r not applied (text no longer present)' % (container, name, r, old))
@@ -308,8 +364,9 @@ def process_fn(asm, header_line, block, tmpl_line):
             raise ScanError('lost anchor: %s::%s body: %r occurs %d times (need %d)' % (container, name, old, c, n))
         if old.count('\n') != new.count('\n'):
             raise ScanError('template error: substitution must preserve line count: %r' % old)
-        first = body.find(old)
-        body = body.replace(old, new)
+        first = hits[0]
+        for h in reversed(hits):
+            body = body[:h] + new + body[h + len(old):]
         rule(r, 'body: %r -> %r (x%d)' % (old, new, n), f['line'] + f['sig'].count('\n') + body[:first].count('\n'))
     inserts = []  # (index_in_body, [ (line, lno) ], mode) mode: 'before_brace' / 'after' / 'before'
     if loops:
